@@ -353,3 +353,29 @@ def run_check(prop, tier, fn, explanation, technique):
             print('VIOLATION property=%s replay=%s' % (prop, path))
         return 1
     return 0
+
+
+def private_state_accesses(repo, facts, owner):
+    """Accesses `<expr>.<attr>` to the private tables of class `owner` (attributes with a leading underscore that its __init__
+    initialises to an empty container) made outside the module that defines `owner` -> [(attr, rel, lineno, qualname)]."""
+    import ast as _ast
+    ci = facts.classes.get(owner)
+    if ci is None or '__init__' not in ci.methods:
+        raise AnalysisError('%s.__init__ vanished' % owner)
+    priv = set()
+    for st in _ast.walk(ci.methods['__init__'].node):
+        if isinstance(st, _ast.Assign) and len(st.targets) == 1 and isinstance(st.targets[0], _ast.Attribute) and \
+                isinstance(st.targets[0].value, _ast.Name) and st.targets[0].value.id == 'self' and st.targets[0].attr.startswith('_'):
+            v = st.value
+            if (isinstance(v, (_ast.Dict, _ast.List, _ast.Set)) and not getattr(v, 'keys', getattr(v, 'elts', None))) or \
+                    (isinstance(v, _ast.Call) and isinstance(v.func, _ast.Name) and v.func.id in ('dict', 'set', 'list') and not v.args):
+                priv.add(st.targets[0].attr)
+    out = []
+    for rel, tree in repo.trees.items():
+        for node in _ast.walk(tree):
+            if isinstance(node, _ast.Attribute) and node.attr in priv:
+                fi = facts.func_of(node)
+                if rel == ci.rel:
+                    continue      # the owner's module: helpers next to the class act on its behalf
+                out.append((node.attr, rel, node.lineno, fi.qual if fi else '<module>'))
+    return sorted(priv), out
